@@ -619,4 +619,287 @@ theorem solPath_realises {s : Sol} {p : Path} (h : solPath s = .path p) :
   unfold Spec.realises
   rw [← h1, ← h2]
 
+/-! ## 6. the interface list read off the hop fields -/
+
+theorem used_cons (p : Spec.Piece) (h : p.cut < p.len) :
+    ∃ a rest, p.entries[p.cut]? = some a ∧ p.used = (a, p.cut) :: rest ∧
+      ∀ x ∈ rest, p.cut < x.2 ∧ p.entries[x.2]? = some x.1 := by
+  unfold Spec.Piece.len at h
+  have hl : p.cut < p.entries.zipIdx.length := by simpa using h
+  refine ⟨p.entries[p.cut], p.entries.zipIdx.drop (p.cut + 1), by simp, ?_, ?_⟩
+  · unfold Spec.Piece.used
+    rw [List.drop_eq_getElem_cons hl]
+    simp
+  · intro x hx
+    have := used_entry (s := p.seg.seg) (sc := p.cut + 1) (x := x) hx
+    exact ⟨by omega, this.1⟩
+
+/-- hypothesis of `interfaces_match_hops`: the first AS entry of the segment has no ingress interface
+(it is where the beacon was originated) -/
+def FirstIngressZero (s : Seg) : Prop := ∀ a, s.entries[0]? = some a → a.hop.ingress = 0
+
+theorem entry_ids (p : Spec.Piece) (x : AsE × Nat) (drop : Bool)
+    (hc : (p.hopAt x.2 x.1).ingress ≠ 0 → ((x.2 ≠ p.cut ∨ p.cut = 0 ∨ p.peer.isSome = true) ↔ drop = false)) :
+    ((if (p.hopAt x.2 x.1).ingress ≠ 0 ∧ (x.2 ≠ p.cut ∨ p.cut = 0 ∨ p.peer.isSome = true)
+        then [(x.1.ia, (p.hopAt x.2 x.1).ingress)] else []) ++
+      (if (p.hopAt x.2 x.1).egress ≠ 0 then [(x.1.ia, (p.hopAt x.2 x.1).egress)] else [])).map (·.2)
+    = Spec.hopIds drop (p.hopAt x.2 x.1) := by
+  unfold Spec.hopIds
+  by_cases h1 : (p.hopAt x.2 x.1).ingress = 0 <;> by_cases h4 : (p.hopAt x.2 x.1).egress = 0 <;>
+  by_cases h2 : (x.2 ≠ p.cut ∨ p.cut = 0 ∨ p.peer.isSome = true) <;> cases drop <;> simp_all
+
+theorem piece_ifs_ids (p : Spec.Piece) (hv : p.cut < p.len) (hz : FirstIngressZero p.seg.seg) :
+    p.ifs.map (·.2) = Spec.segIds p.pseg := by
+  rcases used_cons p hv with ⟨a, rest, ha, hu, hrest⟩
+  have hcons : p.consIfs.map (·.2) = Spec.consIds p.peer.isSome p.consHops := by
+    unfold Spec.Piece.consIfs Spec.Piece.consHops
+    rw [hu]
+    simp only [List.flatMap_cons, List.map_cons, Spec.consIds]
+    rw [List.map_append]
+    congr 1
+    · -- the entry at the cut
+      apply entry_ids p (a, p.cut) (!p.peer.isSome)
+      intro hne
+      simp only
+      by_cases hp : p.peer.isSome = true
+      · simp [hp]
+      · have hp' : p.peer = none := by cases h : p.peer <;> simp_all
+        have hhop : p.hopAt p.cut a = a.hop := by
+          simp [Spec.Piece.hopAt, Spec.Piece.peerE?, hp']
+        have hc : p.cut ≠ 0 := by
+          intro hc
+          apply hne
+          simp only
+          rw [hhop]
+          exact hz a (by rw [← hc]; exact ha)
+        simp [hp', hc]
+    · -- the entries after the cut
+      rw [List.map_flatMap, List.flatMap_map]
+      apply flatMap_congr'
+      intro x hx
+      have hne : x.2 ≠ p.cut := by have := (hrest x hx).1; omega
+      apply entry_ids p x false
+      intro _
+      simp [hne]
+  unfold Spec.Piece.ifs Spec.segIds Spec.Piece.pseg Spec.Piece.hops
+  cases p.down
+  · simp only [Bool.false_eq_true, if_false, List.reverse_reverse, List.map_reverse, hcons]
+  · simp only [if_true, hcons]
+
+/-! ## 7. first and last interface of a piece of a well-formed segment -/
+
+/-- well-formed segment: at least one link; every AS entry but the last has an egress interface, every
+AS entry but the first an ingress interface; peering hop fields name the peering interface -/
+structure SegWf (s : Seg) : Prop where
+  len2 : 2 ≤ s.len
+  egress : ∀ x ∈ s.entries.zipIdx, x.2 + 1 < s.len → x.1.hop.egress ≠ 0
+  ingress : ∀ x ∈ s.entries.zipIdx, 0 < x.2 → x.1.hop.ingress ≠ 0
+  peerIngress : ∀ a ∈ s.entries, ∀ q ∈ a.peers, q.hop.ingress ≠ 0
+
+theorem getLast?_flatMap_of_last {α β : Type} (f : α → List β) : ∀ (l : List α) (xl : α),
+    l.getLast? = some xl → f xl ≠ [] → (l.flatMap f).getLast? = (f xl).getLast? := by
+  intro l
+  induction l with
+  | nil => intro xl h; simp at h
+  | cons a rest ih =>
+    intro xl h hne
+    cases rest with
+    | nil =>
+      simp at h; subst h; simp
+    | cons b rest' =>
+      have h' : (b :: rest').getLast? = some xl := by simpa using h
+      have := ih xl h' hne
+      rw [List.flatMap_cons, List.getLast?_append, this]
+      cases hx : (f xl).getLast? with
+      | none => rw [List.getLast?_eq_none_iff] at hx; exact absurd hx hne
+      | some v => simp
+
+theorem head?_flatMap_of_head {α β : Type} (f : α → List β) (l : List α) (x : α)
+    (h : l.head? = some x) (hne : f x ≠ []) : (l.flatMap f).head? = (f x).head? := by
+  cases l with
+  | nil => simp at h
+  | cons a rest =>
+    simp at h; subst h
+    rw [List.flatMap_cons, List.head?_append]
+    cases hx : (f a).head? with
+    | none => rw [List.head?_eq_none_iff] at hx; exact absurd hx hne
+    | some v => simp
+
+/-- the per-entry interface list of `Spec.Piece.consIfs` -/
+def entryIfs (p : Spec.Piece) (x : AsE × Nat) : List (Nat × Nat) :=
+  (if (p.hopAt x.2 x.1).ingress ≠ 0 ∧ (x.2 ≠ p.cut ∨ p.cut = 0 ∨ p.peer.isSome) then [(x.1.ia, (p.hopAt x.2 x.1).ingress)] else []) ++
+  (if (p.hopAt x.2 x.1).egress ≠ 0 then [(x.1.ia, (p.hopAt x.2 x.1).egress)] else [])
+
+theorem consIfs_eq (p : Spec.Piece) : p.consIfs = p.used.flatMap (entryIfs p) := rfl
+
+theorem entryIfs_ia (p : Spec.Piece) (x : AsE × Nat) : ∀ i ∈ entryIfs p x, i.1 = x.1.ia := by
+  intro i hi
+  unfold entryIfs at hi
+  rcases List.mem_append.mp hi with h | h <;> split at h <;> simp at h <;> simp [h]
+
+/-- (A) a non-peering piece that covers a link starts, in construction order, with an interface of the AS at the cut -/
+theorem consIfs_head {p : Spec.Piece} (hwf : SegWf p.seg.seg) (hpeer : p.peer = none)
+    (hcut : p.cut + 1 < p.len) :
+    ∃ a i, p.entries[p.cut]? = some a ∧ p.consIfs.head? = some i ∧ i.1 = a.ia := by
+  rcases used_cons p (by omega) with ⟨a, rest, ha, hu, _⟩
+  have hmem : (a, p.cut) ∈ p.seg.seg.entries.zipIdx := List.mem_zipIdx_iff_getElem?.mpr ha
+  have heg : a.hop.egress ≠ 0 := hwf.egress (a, p.cut) hmem hcut
+  have hhop : p.hopAt p.cut a = a.hop := by simp [Spec.Piece.hopAt, Spec.Piece.peerE?, hpeer]
+  have hne : entryIfs p (a, p.cut) ≠ [] := by
+    unfold entryIfs
+    simp only [hhop]
+    rw [if_pos heg]
+    simp
+  have hh : p.consIfs.head? = (entryIfs p (a, p.cut)).head? := by
+    rw [consIfs_eq]
+    exact head?_flatMap_of_head _ _ _ (by rw [hu]; rfl) hne
+  cases hx : (entryIfs p (a, p.cut)).head? with
+  | none => rw [List.head?_eq_none_iff] at hx; exact absurd hx hne
+  | some i =>
+    exact ⟨a, i, ha, by rw [hh, hx], entryIfs_ia p _ i (List.mem_of_head? hx)⟩
+
+/-- (B) a valid piece ends, in construction order, with an interface of the leaf AS -/
+theorem consIfs_last {p : Spec.Piece} (hwf : SegWf p.seg.seg) (hv : p.Valid) :
+    ∃ al j, p.entries.getLast? = some al ∧ p.consIfs.getLast? = some j ∧ j.1 = al.ia := by
+  have hlen : 2 ≤ p.len := hwf.len2
+  have hcut := hv.cut_lt
+  have hlast : p.entries[p.len - 1]? = some (p.entries[p.len - 1]'(by unfold Spec.Piece.len at *; omega)) := by
+    simp
+  generalize hal : p.entries[p.len - 1]'(by unfold Spec.Piece.len at *; omega) = al at hlast
+  have hgl : p.entries.getLast? = some al := by
+    rw [List.getLast?_eq_getElem?]; exact hlast
+  have hmem : (al, p.len - 1) ∈ p.seg.seg.entries.zipIdx := List.mem_zipIdx_iff_getElem?.mpr hlast
+  have hul : p.used.getLast? = some (al, p.len - 1) := by
+    unfold Spec.Piece.used
+    rw [List.getLast?_drop]
+    have : ¬ p.entries.zipIdx.length ≤ p.cut := by simp [Spec.Piece.len] at hcut ⊢; omega
+    rw [if_neg this, List.getLast?_eq_getElem?, List.getElem?_zipIdx]
+    simp only [List.length_zipIdx, Nat.zero_add]
+    unfold Spec.Piece.len at hlast
+    rw [hlast]; rfl
+  have hne : entryIfs p (al, p.len - 1) ≠ [] := by
+    unfold entryIfs
+    by_cases hc : p.len - 1 = p.cut
+    · -- the piece consists of the leaf only: it must be a peering piece
+      have hpeer : ∃ i, p.peer = some i := by
+        cases hp : p.peer with
+        | some i => exact ⟨i, rfl⟩
+        | none =>
+          exfalso
+          cases hcore : p.seg.core with
+          | true => have := (hv.core_whole hcore).1; omega
+          | false => have := hv.noncore_link hcore hp; omega
+      rcases hpeer with ⟨i, hi⟩
+      rcases hv.peer_ok i hi with ⟨q, hq⟩
+      have hhop : p.hopAt (p.len - 1) al = q.hop := by simp [Spec.Piece.hopAt, hc, hq]
+      have hqin : q.hop.ingress ≠ 0 := by
+        unfold Spec.Piece.peerE? at hq
+        rw [hi] at hq
+        simp only at hq
+        rw [← hc, hlast] at hq
+        simp only [Option.bind_some] at hq
+        exact hwf.peerIngress al (List.mem_of_getElem? hlast) q (List.mem_of_getElem? hq)
+      simp only [hhop]
+      rw [if_pos ⟨hqin, Or.inr (Or.inr (by simp [hi]))⟩]
+      simp
+    · have hhop : p.hopAt (p.len - 1) al = al.hop := by simp [Spec.Piece.hopAt, hc]
+      have hin : al.hop.ingress ≠ 0 := hwf.ingress (al, p.len - 1) hmem (by simp; omega)
+      simp only [hhop]
+      rw [if_pos ⟨hin, Or.inl hc⟩]
+      simp
+  have hh : p.consIfs.getLast? = (entryIfs p (al, p.len - 1)).getLast? := by
+    rw [consIfs_eq]
+    exact getLast?_flatMap_of_last _ _ _ hul hne
+  cases hx : (entryIfs p (al, p.len - 1)).getLast? with
+  | none => rw [List.getLast?_eq_none_iff] at hx; exact absurd hx hne
+  | some j =>
+    exact ⟨al, j, hgl, by rw [hh, hx], entryIfs_ia p _ j (List.mem_of_getLast? hx)⟩
+
+/-- a valid piece that starts at an AS starts with an interface of that AS -/
+theorem piece_ifs_head {p : Spec.Piece} (hwf : SegWf p.seg.seg) (hv : p.Valid) {x : Nat}
+    (hfrom : p.from? = some (.as x)) : ∃ i, p.ifs.head? = some i ∧ i.1 = x := by
+  unfold Spec.Piece.from? at hfrom
+  unfold Spec.Piece.ifs
+  cases hd : p.down with
+  | true =>
+    simp only [hd, if_true] at hfrom ⊢
+    -- near? is an AS: no peering
+    have hpeer : p.peer = none := by
+      cases hp : p.peer with
+      | none => rfl
+      | some i =>
+        exfalso
+        unfold Spec.Piece.near? at hfrom
+        split at hfrom
+        · cases hfrom
+        · simp only [hp] at hfrom
+          split at hfrom
+          · cases hfrom
+          · simp [hd] at hfrom
+    have hcut : p.cut + 1 < p.len := by
+      cases hcore : p.seg.core with
+      | true => have := (hv.core_whole hcore).1; have := hwf.len2; unfold Spec.Piece.len Spec.Piece.entries Seg.len at *; omega
+      | false => exact hv.noncore_link hcore hpeer
+    rcases consIfs_head hwf hpeer hcut with ⟨a, i, ha, hi, hia⟩
+    refine ⟨i, hi, ?_⟩
+    unfold Spec.Piece.near? at hfrom
+    rw [ha] at hfrom
+    simp only [hpeer] at hfrom
+    injection hfrom with hfrom
+    injection hfrom with hfrom
+    rw [hia, hfrom]
+  | false =>
+    simp only [hd, Bool.false_eq_true, if_false] at hfrom ⊢
+    rcases consIfs_last hwf hv with ⟨al, j, hal, hj, hja⟩
+    refine ⟨j, by rw [List.head?_reverse]; exact hj, ?_⟩
+    unfold Spec.Piece.leaf? at hfrom
+    rw [hal] at hfrom
+    simp only [Option.map_some] at hfrom
+    injection hfrom with hfrom
+    injection hfrom with hfrom
+    rw [hja, hfrom]
+
+/-- a valid piece that ends at an AS ends with an interface of that AS -/
+theorem piece_ifs_last {p : Spec.Piece} (hwf : SegWf p.seg.seg) (hv : p.Valid) {x : Nat}
+    (hto : p.to? = some (.as x)) : ∃ i, p.ifs.getLast? = some i ∧ i.1 = x := by
+  unfold Spec.Piece.to? at hto
+  unfold Spec.Piece.ifs
+  cases hd : p.down with
+  | false =>
+    simp only [hd, Bool.false_eq_true, if_false] at hto ⊢
+    have hpeer : p.peer = none := by
+      cases hp : p.peer with
+      | none => rfl
+      | some i =>
+        exfalso
+        unfold Spec.Piece.near? at hto
+        split at hto
+        · cases hto
+        · simp only [hp] at hto
+          split at hto
+          · cases hto
+          · simp [hd] at hto
+    have hcut : p.cut + 1 < p.len := by
+      cases hcore : p.seg.core with
+      | true => have := (hv.core_whole hcore).1; have := hwf.len2; unfold Spec.Piece.len Spec.Piece.entries Seg.len at *; omega
+      | false => exact hv.noncore_link hcore hpeer
+    rcases consIfs_head hwf hpeer hcut with ⟨a, i, ha, hi, hia⟩
+    refine ⟨i, by rw [List.getLast?_reverse]; exact hi, ?_⟩
+    unfold Spec.Piece.near? at hto
+    rw [ha] at hto
+    simp only [hpeer] at hto
+    injection hto with hto
+    injection hto with hto
+    rw [hia, hto]
+  | true =>
+    simp only [hd, if_true] at hto ⊢
+    rcases consIfs_last hwf hv with ⟨al, j, hal, hj, hja⟩
+    refine ⟨j, hj, ?_⟩
+    unfold Spec.Piece.leaf? at hto
+    rw [hal] at hto
+    simp only [Option.map_some] at hto
+    injection hto with hto
+    injection hto with hto
+    rw [hja, hto]
+
 end ScionVerif.Comb
